@@ -6,7 +6,7 @@ cd /verif
 ids=("$@"); [ ${#ids[@]} -eq 0 ] && ids=($(ls seeded))
 miss=0
 for id in "${ids[@]}"; do
-  d=seeded/$id
+  d=/verif/seeded/$id
   props=$(python3 -c "
 import json
 m=json.load(open('$d/meta.json'))
